@@ -137,11 +137,14 @@ func (f *freshnessCalculator) CalculateFreshness(
 
 	// Freshness lifetime (private cache: ignore s-maxage)
 	usefulLife := time.Duration(0)
-	if maxAge, ok := resCC.MaxAge(); ok && maxAge >= 0 {
+	maxAge, hasMaxAge := resCC.MaxAge()
+	if hasMaxAge && maxAge >= 0 {
 		usefulLife = maxAge // Response is fresh for max-age seconds
 	}
 
-	if usefulLife == 0 {
+	// RFC 9111 §4.2.1: a valid max-age (including max-age=0) takes precedence
+	// over Expires and heuristic freshness.
+	if !hasMaxAge {
 		expires, found, valid := entry.ExpiresHeader()
 		switch {
 		case valid && expires.After(date):
